@@ -1,8 +1,11 @@
 (* C03, lexical level: the model lexer recognises exactly the lexical grammar of Spec/LuaLex.v.
-     lex_all_complete_code : Lex with the code's escapes      => lex_all returns these tokens, no lexical error
-     lex_all_sound_code    : lex_all without a lexical error  => Lex with the code's escapes (unguarded: the exact language)
-     lex_all_complete      : LexesTo (the manual's escapes)   => the same
-     lex_all_sound_guarded : no lexical error + no_bad_escape => LexesTo *)
+   Generic in the variant fx of the code (Model/Lexer.v FxEscape; EscFx fx = the escapes it accepts without an error):
+     lex_all_complete_fx / lex_all_sound_fx : no lexical error <=> Lex with the escapes EscFx fx, the same tokens
+     lex_all_sound_code    : (both variants) no lexical error => Lex with the code's old escapes EscCode
+     lex_all_complete      : (both variants) LexesTo (the manual's escapes) => no lexical error, these tokens
+     lex_all_sound_guarded : (both variants) no lexical error + no_bad_escape => LexesTo
+   The repaired code (fx = true):   lex_all_sound_fixed, lex_all_iff_fixed : no lexical error <=> LexesTo, NO guard.
+   The code before (fx = false):    lex_all_complete_code : Lex with EscCode => no lexical error (its exact language). *)
 From Coq Require Import List NArith ZArith Bool Arith Lia ZifyNat ZifyN ZifyBool.
 From LH Require Import Base.Bytes Base.Res Model.Codec Model.Lexer Spec.LuaNumeral Spec.LuaLex.
 From LH Require Import Proofs.LexerTotalFuel Proofs.LexerTotalProgress Proofs.LexerTotalMain
@@ -37,6 +40,7 @@ Proof.
 Qed.
 
 Section WithOracle.
+  Context {fx : FxEscape}.
   Variable gbk_runes : list N -> Z.
 
   (* ---------------------------------------------------------------- dispatch on the first byte *)
@@ -71,7 +75,7 @@ Section WithOracle.
 
   (* ---------------------------------------------------------------- one token *)
   Lemma scan_token_complete s t bs r :
-    Token EscCode t bs r -> chunk s = bs ->
+    Token (EscFx fx) t bs r -> chunk s = bs ->
     exists tok s', scan_token gbk_runes s = (tok, s', []) /\
                    tk tok = sk t /\ (sk t <> TkString -> tstr tok = stxt t) /\ chunk s' = r.
   Proof.
@@ -121,7 +125,7 @@ Section WithOracle.
 
   Lemma scan_token_sound s c rest tok s' :
     chunk s = c :: rest -> ~ starts [45; 45] (c :: rest) -> scan_token gbk_runes s = (tok, s', []) ->
-    exists t, Token EscCode t (c :: rest) (chunk s') /\ tk tok = sk t /\ (sk t <> TkString -> tstr tok = stxt t).
+    exists t, Token (EscFx fx) t (c :: rest) (chunk s') /\ tk tok = sk t /\ (sk t <> TkString -> tstr tok = stxt t).
   Proof.
     intros Hch Hnc H.
     destruct (lx_alpha c) eqn:Ea.
@@ -138,7 +142,7 @@ Section WithOracle.
       exists (mkS TkNumber (firstn (num_len (c :: rest)) (c :: rest))).
       split; [|split; [exact Hk|intros _; exact Hs]]. rewrite Hc. apply Tk_number. exact En. }
     assert (Hlong : forall c1 rest', c = 91 -> rest = c1 :: rest' -> (c1 =? 91) || (c1 =? 61) = true ->
-              exists t, Token EscCode t (c :: rest) (chunk s') /\ tk tok = sk t /\ (sk t <> TkString -> tstr tok = stxt t)).
+              exists t, Token (EscFx fx) t (c :: rest) (chunk s') /\ tk tok = sk t /\ (sk t <> TkString -> tstr tok = stxt t)).
     { intros c1 rest' -> -> Hc1. rewrite (scan_token_long s c1 rest' Hch Hc1) in H. unfold long_or_short in H.
       destruct (scan_long_string s) as [[[str s1] es] ov] eqn:E. injection H as <- <- ->.
       apply scan_long_sound in E. rewrite Hch in E.
@@ -177,7 +181,7 @@ Section WithOracle.
   Qed.
 
   Lemma next_token_complete prev2 prev1 s r1 t r :
-    Sep (chunk s) r1 -> Token EscCode t r1 r ->
+    Sep (chunk s) r1 -> Token (EscFx fx) t r1 r ->
     exists lt1 s1, next_token gbk_runes prev2 prev1 s = (lt1, s1) /\ tok_ok lt1 t /\ lerrs lt1 = [] /\ chunk s1 = r.
   Proof.
     intros HS HT. unfold next_token.
@@ -189,7 +193,7 @@ Section WithOracle.
   Lemma next_token_sound prev2 prev1 s lt1 s1 :
     next_token gbk_runes prev2 prev1 s = (lt1, s1) -> lerrs lt1 = [] ->
     (tk (lt lt1) = TkEOF /\ Sep (chunk s) []) \/
-    (tk (lt lt1) <> TkEOF /\ exists r1 t, Sep (chunk s) r1 /\ Token EscCode t r1 (chunk s1) /\ tok_ok lt1 t).
+    (tk (lt lt1) <> TkEOF /\ exists r1 t, Sep (chunk s) r1 /\ Token (EscFx fx) t r1 (chunk s1) /\ tok_ok lt1 t).
   Proof.
     unfold next_token.
     destruct (skip_ws prev2 prev1 s) as [[s' cms] es1] eqn:Hw.
@@ -204,7 +208,7 @@ Section WithOracle.
   Qed.
 
   (* ---------------------------------------------------------------- the loop *)
-  Lemma lex_loop_complete : forall bs ts, Lex EscCode bs ts ->
+  Lemma lex_loop_complete : forall bs ts, Lex (EscFx fx) bs ts ->
     forall f prev2 prev1 s acc, chunk s = bs -> (clen s < f)%nat ->
     exists body eof, lex_loop gbk_runes f prev2 prev1 s acc = Ok (rev acc ++ body ++ [eof]) /\
                      Forall2 tok_ok body ts /\ tk (lt eof) = TkEOF /\ flat_map lerrs (body ++ [eof]) = [].
@@ -228,7 +232,7 @@ Section WithOracle.
     lex_loop gbk_runes f prev2 prev1 s acc = Ok ts ->
     exists more, ts = rev acc ++ more /\
       (flat_map lerrs more = [] ->
-       exists body eof sts, more = body ++ [eof] /\ tk (lt eof) = TkEOF /\ Lex EscCode (chunk s) sts /\
+       exists body eof sts, more = body ++ [eof] /\ tk (lt eof) = TkEOF /\ Lex (EscFx fx) (chunk s) sts /\
                             Forall2 tok_ok body sts).
   Proof.
     induction f as [|f IH]; intros prev2 prev1 s acc ts H; cbn [lex_loop] in H; [discriminate|].
@@ -265,8 +269,9 @@ Section WithOracle.
   Qed.
 
   (* ---------------------------------------------------------------- whole files *)
-  Theorem lex_all_complete_code bs sts :
-    LexesToWith EscCode bs sts ->
+  (* both variants of the code: no lexical error <-> lexically valid with the escapes that variant accepts silently *)
+  Theorem lex_all_complete_fx bs sts :
+    LexesToWith (EscFx fx) bs sts ->
     exists body eof, lex_all gbk_runes bs = Ok (body ++ [eof]) /\ Forall2 tok_ok body sts /\
                      tk (lt eof) = TkEOF /\ flat_map lerrs (body ++ [eof]) = [].
   Proof.
@@ -276,9 +281,9 @@ Section WithOracle.
     exists body, eof. rewrite E. repeat split; assumption.
   Qed.
 
-  Theorem lex_all_sound_code bs ts :
+  Theorem lex_all_sound_fx bs ts :
     lex_all gbk_runes bs = Ok ts -> flat_map lerrs ts = [] ->
-    exists body eof sts, ts = body ++ [eof] /\ tk (lt eof) = TkEOF /\ LexesToWith EscCode bs sts /\
+    exists body eof sts, ts = body ++ [eof] /\ tk (lt eof) = TkEOF /\ LexesToWith (EscFx fx) bs sts /\
                          Forall2 tok_ok body sts.
   Proof.
     unfold lex_all. intros H Hl. apply lex_loop_sound in H as (more & -> & Hm). cbn [rev app] in Hl |- *.
@@ -286,11 +291,22 @@ Section WithOracle.
     repeat split; [exact Hk| |exact HF]. unfold LexesToWith. rewrite <- skip_first_line_chunk. exact HL.
   Qed.
 
+  (* hence, for both variants: no lexical error => valid with the code's old escapes (EscCode) *)
+  Theorem lex_all_sound_code bs ts :
+    lex_all gbk_runes bs = Ok ts -> flat_map lerrs ts = [] ->
+    exists body eof sts, ts = body ++ [eof] /\ tk (lt eof) = TkEOF /\ LexesToWith EscCode bs sts /\
+                         Forall2 tok_ok body sts.
+  Proof.
+    intros H Hl. destruct (lex_all_sound_fx bs ts H Hl) as (body & eof & sts & E & Hk & HL & HF).
+    exists body, eof, sts. repeat split; try assumption. exact (lex_fx_code _ _ _ HL).
+  Qed.
+
+  (* for both variants: valid text (the manual's escapes) is never flagged *)
   Theorem lex_all_complete bs sts :
     LexesTo bs sts ->
     exists body eof, lex_all gbk_runes bs = Ok (body ++ [eof]) /\ Forall2 tok_ok body sts /\
                      tk (lt eof) = TkEOF /\ flat_map lerrs (body ++ [eof]) = [].
-  Proof. intros HL. apply lex_all_complete_code. apply lex_lua_code. exact HL. Qed.
+  Proof. intros HL. apply lex_all_complete_fx. apply lex_lua_fx. exact HL. Qed.
 
   Theorem lex_all_sound_guarded bs ts :
     lex_all gbk_runes bs = Ok ts -> flat_map lerrs ts = [] -> no_bad_escape bs = true ->
@@ -315,6 +331,34 @@ Section WithOracle.
     rewrite map_app, (tok_ok_kinds _ _ HF). cbn [map]. rewrite Hk. reflexivity.
   Qed.
 End WithOracle.
+
+(* ------------------------------------------------------------------ the two variants by name *)
+(* the REPAIRED code (fx_escape = true): no lexical error => lexically valid Lua. No guard. *)
+Theorem lex_all_sound_fixed gbk_runes bs ts :
+  lex_all (fx := true) gbk_runes bs = Ok ts -> flat_map lerrs ts = [] ->
+  exists body eof sts, ts = body ++ [eof] /\ tk (lt eof) = TkEOF /\ LexesTo bs sts /\ Forall2 tok_ok body sts.
+Proof.
+  intros H Hl. destruct (lex_all_sound_fx (fx := true) gbk_runes bs ts H Hl) as (body & eof & sts & E & Hk & HL & HF).
+  exists body, eof, sts. repeat split; try assumption. exact (lex_fx_lua _ _ HL).
+Qed.
+
+(* ... both directions in one statement: the repaired lexer raises no error exactly on the lexically valid texts *)
+Theorem lex_all_iff_fixed gbk_runes bs :
+  (exists ts, lex_all (fx := true) gbk_runes bs = Ok ts /\ flat_map lerrs ts = []) <-> (exists sts, LexesTo bs sts).
+Proof.
+  split.
+  - intros (ts & H & Hl). destruct (lex_all_sound_fixed gbk_runes bs ts H Hl) as (_ & _ & sts & _ & _ & HL & _).
+    exists sts. exact HL.
+  - intros (sts & HL). destruct (lex_all_complete (fx := true) gbk_runes bs sts HL) as (body & eof & E & _ & _ & Hl).
+    exists (body ++ [eof]). split; assumption.
+Qed.
+
+(* the code BEFORE the repair (fx_escape = false): its exact language is the grammar with the escapes EscCode *)
+Theorem lex_all_complete_code gbk_runes bs sts :
+  LexesToWith EscCode bs sts ->
+  exists body eof, lex_all (fx := false) gbk_runes bs = Ok (body ++ [eof]) /\ Forall2 tok_ok body sts /\
+                   tk (lt eof) = TkEOF /\ flat_map lerrs (body ++ [eof]) = [].
+Proof. intros HL. apply (lex_all_complete_fx (fx := false)). exact (lex_code_fx _ _ HL). Qed.
 
 Theorem lexes_lua_code bs sts : LexesTo bs sts -> LexesToWith EscCode bs sts.
 Proof. apply lex_lua_code. Qed.
